@@ -153,8 +153,8 @@ def check_list_chunk(ctx, cases, obs, base):
     return n
 
 
-def cmp_die(ctx, case, o):
-    exp = case["exp"]
+def cmp_die(ctx, case, o, exp=None):
+    exp = exp if exp is not None else case["exp"]
     sig = "die:v%s-fmt%s-%s" % ("2-4" if case["cf"]["ver"] <= 4 else "5", case["cf"]["fmt"], "dwo" if case["cf"]["dwo"] else "main")
     bad = []
     if exp["unit"]["t"] == "err":
@@ -226,6 +226,21 @@ def check_die_cases(ctx, binpath, cases_path, tag):
             ctx.violation("%s:version-dependent:v%s" % (sig, d["ver"]),
                           "the same unit body gives different results in version %s: %s" % (d["ver"], json.dumps(d["obs"])[:400]), case, o)
         ctx.nontrivial(canon([case["cf"], case["abbrev"], case["info"]]))
+        # the same unit as the split unit of a skeleton: make_dwo + copy_relocated_attributes
+        for sp in case.get("split", []):
+            so = o.get("split")
+            if so is None or "outcome" in so:
+                ctx.violation("split:%s:%s" % ((so or {}).get("outcome"), (so or {}).get("loc", "")),
+                              "split-unit queries did not return normally: %s" % json.dumps(so)[:300], case, o)
+                continue
+            sig, bad = cmp_die(ctx, case, so, sp["exp"])
+            for what, msg in bad:
+                ctx.violation("split:%s:%s" % (sig[4:], what),
+                              "after make_dwo + copy_relocated_attributes from the skeleton unit: " + msg[:900], case, so)
+            for d in so.get("diff", []):
+                ctx.violation("split:%s:version-dependent:v%s" % (sig[4:], d["ver"]),
+                              "split unit: different results in version %s: %s" % (d["ver"], json.dumps(d["obs"])[:400]), case, so)
+            ctx.nontrivial(canon(["split", case["cf"], case["abbrev"], case["info"]]))
     return len(cases)
 
 
